@@ -685,3 +685,18 @@ Proof.
         * destruct (alookup p (e_router (s_env s0))); inversion E; subst s1; [intros j x Hx; eapply Push; exact Hx|exact P0]. }
   intros i nd p pr sl Hn Hp Hl Hs Hst. destruct Inv as (_&P). apply (P i nd Hn p pr Hp Hl sl Hs Hst).
 Qed.
+
+(* (2) lifted to every reachable state *)
+Theorem no_timeout_due_at_last_check : forall nw sigma s i k o s',
+  run (init nw) sigma = Good s -> sys_step s (W i k o) = Good s' -> time_honest (s_clock s) (o_did o) ->
+  forall nd' p, nth_error (s_nodes s') i = Some nd' -> mem p (w_selecting (n_w nd')) = true ->
+    timed_out (s_clock s) (n_w nd') p = false.
+Proof.
+  intros nw sigma s i k o s' H E Hh nd' p Hn Hp.
+  destruct (WF_run sigma _ _ (WF_init nw) H) as (_&N). simpl in E.
+  destruct (nth_error (s_nodes s) i) as [nd|] eqn:Ei.
+  - destruct (node_step i (s_clock s) k o nd) as [nd2|] eqn:Es; cbn [rbind] in E; [|discriminate].
+    inversion E; subst s'. simpl in Hn. rewrite (nth_error_update_same _ _ _ _ Ei) in Hn. inversion Hn; subst nd2.
+    eapply no_timeout_due_after_step; [apply (N i nd Ei)|exact Es|exact Hh|exact Hp].
+  - inversion E; subst s'. congruence.
+Qed.
